@@ -45,7 +45,6 @@
 package interp // import "golang.org/x/tools/go/ssa/interp"
 
 import (
-	"strings"
 	"fmt"
 	"go/token"
 	"go/types"
@@ -54,6 +53,8 @@ import (
 	"reflect"
 	"runtime"
 	"slices"
+	"strings"
+	"sync"
 	"sync/atomic"
 	_ "unsafe"
 
@@ -544,6 +545,8 @@ func loc(fset *token.FileSet, pos token.Pos) string {
 // callSSA interprets a call to function fn with arguments args,
 // and lexical environment env, returning its result.
 // callpos is the position of the callsite.
+var builtPkgs sync.Map // *ssa.Package -> true once Build has returned
+
 func callSSA(i *interpreter, caller *frame, callpos token.Pos, fn *ssa.Function, args []value, env []value) value {
 	if i.mode&EnableTracing != 0 {
 		fset := fn.Prog.Fset
@@ -570,8 +573,14 @@ func callSSA(i *interpreter, caller *frame, callpos token.Pos, fn *ssa.Function,
 		if r, handled := i.sym.intercept(fr, name, fn, args); handled {
 			return r
 		}
-		if fn.Blocks == nil && fn.Pkg != nil {
-			fn.Pkg.Build() // on-demand SSA construction (idempotent, synchronised)
+		if fn.Pkg != nil {
+			// on-demand SSA construction.  Build is idempotent and blocks until the package is complete;
+			// it must be awaited even when fn.Blocks is already non-nil, because another worker may be in
+			// the middle of building (and lifting) exactly this function.
+			if _, done := builtPkgs.Load(fn.Pkg); !done {
+				fn.Pkg.Build()
+				builtPkgs.Store(fn.Pkg, true)
+			}
 		}
 		if fn.Blocks == nil {
 			panic(unsupported("no code for function: " + name))
